@@ -631,41 +631,63 @@ def _collect_functions():
     return fns
 
 
-def _expr_tainted(e, T, kwname):
-    """does evaluating e yield (or contain) an object owned by the caller?"""
+def _level(e, T, kwname):
+    """taint level of the value of e:  0 = fresh / immutable;  1 = a FRESH container whose elements are objects
+    owned by the caller (writing into the container is invisible, its elements are not);  2 = an object the caller
+    can see (an argument, something reachable from one through attributes / subscripts / iteration)"""
     if isinstance(e, ast.Name):
-        return e.id in T
+        return T.get(e.id, 0)
     if isinstance(e, ast.Starred):
-        return _expr_tainted(e.value, T, kwname)
-    if isinstance(e, (ast.Tuple, ast.List)):
-        return any(_expr_tainted(x, T, kwname) for x in e.elts)
+        return _level(e.value, T, kwname)
+    if isinstance(e, (ast.Tuple, ast.List, ast.Set)):
+        return 1 if any(_level(x, T, kwname) for x in e.elts) else 0
+    if isinstance(e, ast.Dict):
+        return 1 if any(v is not None and _level(v, T, kwname) for v in list(e.values) + [k for k in e.keys if k is None]) \
+            or any(k is None and _level(v, T, kwname) for k, v in zip(e.keys, e.values)) else 0
     if isinstance(e, ast.Subscript):
-        return _expr_tainted(e.value, T, kwname)
+        return 2 if _level(e.value, T, kwname) else 0
+    if isinstance(e, ast.Attribute):
+        return 2 if _level(e.value, T, kwname) == 2 else 0
     if isinstance(e, ast.IfExp):
-        return _expr_tainted(e.body, T, kwname) or _expr_tainted(e.orelse, T, kwname)
+        return max(_level(e.body, T, kwname), _level(e.orelse, T, kwname))
     if isinstance(e, ast.BoolOp):
-        return any(_expr_tainted(v, T, kwname) for v in e.values)
+        return max(_level(v, T, kwname) for v in e.values)
     if isinstance(e, ast.NamedExpr):
-        return _expr_tainted(e.value, T, kwname)
+        return _level(e.value, T, kwname)
+    if isinstance(e, ast.BinOp) and isinstance(e.op, ast.BitOr):
+        # dict union: a fresh mapping sharing the values of both sides
+        return 1 if (_level(e.left, T, kwname) or _level(e.right, T, kwname)) else 0
+    if isinstance(e, (ast.ListComp, ast.SetComp, ast.GeneratorExp, ast.DictComp)):
+        return 1 if any(_level(g.iter, T, kwname) for g in e.generators) else 0
     if isinstance(e, ast.Call):
         f = e.func
         if isinstance(f, ast.Attribute):
             base = f.value
             if isinstance(base, ast.Name) and base.id == kwname and f.attr in ("pop", "get"):
-                return True                          # a value the caller passed as keyword argument
-            if f.attr in ("get", "values", "items", "keys", "popitem", "pop") and _expr_tainted(base, T, kwname):
-                return True                          # an element of a caller-owned container
-            if f.attr in PASS_THROUGH and any(_expr_tainted(a, T, kwname) for a in e.args):
-                return True
-            return False                             # any other method call returns a new object
+                return 2                             # a value the caller passed as keyword argument
+            bl = _level(base, T, kwname)
+            if f.attr in ("get", "popitem", "pop", "setdefault") and bl:
+                return 2                             # an element of a caller-owned container
+            if f.attr in ("values", "items", "keys") and bl:
+                return 1                             # a view: iterating yields the caller's objects
+            if f.attr == "copy" and bl and not isinstance(base, ast.Attribute):
+                return 1 if bl else 0                # (shallow) copy: fresh container, shared elements
+            if f.attr in PASS_THROUGH:
+                return max([_level(a, T, kwname) for a in e.args] + [0])
+            return 0                                 # any other method call returns a new object
         if isinstance(f, ast.Name):
-            if f.id in PASS_THROUGH and any(_expr_tainted(a, T, kwname) for a in e.args):
-                return True
-            if f.id in ("list", "tuple", "reversed", "zip", "enumerate", "iter", "next", "sorted"):
-                # a new container, but its elements are the caller's objects
-                return any(_expr_tainted(a, T, kwname) for a in e.args)
-            return False
-    return False
+            if f.id in PASS_THROUGH:
+                return max([_level(a, T, kwname) for a in e.args] + [0])
+            if f.id in ("list", "tuple", "reversed", "zip", "enumerate", "iter", "sorted", "dict", "set", "frozenset"):
+                return 1 if any(_level(a, T, kwname) for a in e.args) else 0
+            if f.id == "next":
+                return 2 if any(_level(a, T, kwname) for a in e.args) else 0
+            return 0
+    return 0
+
+
+def _expr_tainted(e, T, kwname):
+    return _level(e, T, kwname) > 0
 
 
 def _targets(t):
@@ -681,15 +703,27 @@ def _targets(t):
     return []
 
 
+def _merge(a, b):
+    out = dict(a)
+    for k, v in b.items():
+        out[k] = max(out.get(k, 0), v)
+    return out
+
+
 def _analyse(fn, tainted_params, fns, writes, calls):
-    """flow-sensitive (branches merged by union, loops run twice) taint pass over one function"""
+    """flow-sensitive (branches merged by union, loops run twice) taint pass over one function;
+    `tainted_params` = frozenset of (parameter name, level)"""
     kwname = fn.kwarg
     is_method = "." in fn.qual and fn.params and fn.params[0] == "self"
 
     def record(node, kind, what):
         writes.add((fn.module, fn.qual, node.lineno, kind, what))
 
-    def base_name(e):
+    def base_expr(e):
+        # the object that is written through a (nested) subscript / attribute target
+        return e.value if isinstance(e, (ast.Subscript, ast.Attribute)) else None
+
+    def root_name(e):
         while isinstance(e, (ast.Subscript, ast.Attribute)):
             e = e.value
         return e.id if isinstance(e, ast.Name) else None
@@ -699,16 +733,14 @@ def _analyse(fn, tainted_params, fns, writes, calls):
             if not isinstance(c, ast.Call):
                 continue
             f = c.func
-            if isinstance(f, ast.Attribute) and f.attr in MUTATORS and isinstance(f.value, ast.Name):
-                nm = f.value.id
-                if nm in T and nm != kwname:
-                    record(c, "call", f"{nm}.{f.attr}()")
-                if nm == "self" and is_method and fn.qual not in SELF_WRITERS:
-                    pass
-            if isinstance(f, ast.Attribute) and f.attr in MUTATORS and isinstance(f.value, ast.Attribute) \
-                    and isinstance(f.value.value, ast.Name) and f.value.value.id == "self" \
-                    and fn.qual.split(".<locals>.")[0] not in SELF_WRITERS:
-                record(c, "self-call", f"self.{f.value.attr}.{f.attr}()")
+            if isinstance(f, ast.Attribute) and f.attr in MUTATORS:
+                rn = root_name(f.value)
+                if rn == "self" and is_method:
+                    if isinstance(f.value, ast.Attribute) or isinstance(f.value, ast.Subscript):
+                        if fn.qual.split(".<locals>.")[0] not in SELF_WRITERS:
+                            record(c, "self-call", f"{ast.unparse(f.value)}.{f.attr}()")
+                elif rn != kwname and _level(f.value, T, kwname) == 2:
+                    record(c, "call", f"{ast.unparse(f.value)}.{f.attr}()")
             # propagate into callees defined in xgcm
             cname = f.id if isinstance(f, ast.Name) else (f.attr if isinstance(f, ast.Attribute) else None)
             if cname is None:
@@ -719,24 +751,27 @@ def _analyse(fn, tainted_params, fns, writes, calls):
                 params = list(callee.params)
                 if params and params[0] == "self":
                     params = params[1:]
-                tp = set()
+                tp = {}
+                def put(name, lv):
+                    if lv:
+                        tp[name] = max(tp.get(name, 0), lv)
                 for i, a in enumerate(c.args):
                     if isinstance(a, ast.Starred):
-                        if _expr_tainted(a.value, T, kwname) and callee.vararg:
-                            tp.add(callee.vararg)
+                        if callee.vararg:
+                            put(callee.vararg, 1 if _level(a.value, T, kwname) else 0)
                         continue
-                    if _expr_tainted(a, T, kwname):
-                        if i < len(params):
-                            tp.add(params[i])
-                        elif callee.vararg:
-                            tp.add(callee.vararg)
+                    lv = _level(a, T, kwname)
+                    if i < len(params):
+                        put(params[i], lv)
+                    elif callee.vararg:
+                        put(callee.vararg, 1 if lv else 0)
                 for k in c.keywords:
                     if k.arg is None:
                         continue
-                    if _expr_tainted(k.value, T, kwname):
-                        tp.add(k.arg if k.arg in callee.params else ("**" + (callee.kwarg or "")))
+                    lv = _level(k.value, T, kwname)
+                    put(k.arg if k.arg in callee.params else ("**" + (callee.kwarg or "")), lv)
                 if tp:
-                    calls.add((key, frozenset(tp)))
+                    calls.add((key, frozenset(tp.items())))
 
     def run(stmts, T):
         for s in stmts:
@@ -744,28 +779,28 @@ def _analyse(fn, tainted_params, fns, writes, calls):
                 continue
             if isinstance(s, ast.If):
                 scan_calls(s.test, T)
-                t1 = run(s.body, set(T))
-                t2 = run(s.orelse, set(T))
-                T = t1 | t2
+                t1 = run(s.body, dict(T))
+                t2 = run(s.orelse, dict(T))
+                T = _merge(t1, t2)
                 continue
             if isinstance(s, (ast.For,)):
                 scan_calls(s.iter, T)
                 for _ in range(2):
-                    if _expr_tainted(s.iter, T, kwname) or (
-                            isinstance(s.iter, ast.Call) and isinstance(s.iter.func, ast.Attribute)
-                            and _expr_tainted(s.iter.func.value, T, kwname)):
-                        T |= set(_targets(s.target))
+                    if _level(s.iter, T, kwname):
+                        for nm in _targets(s.target):
+                            T[nm] = 2
                     T = run(s.body, T)
                 T = run(s.orelse, T)
                 continue
             if isinstance(s, ast.While):
+                scan_calls(s.test, T)
                 for _ in range(2):
                     T = run(s.body, T)
                 continue
             if isinstance(s, ast.Try):
                 T = run(s.body, T)
                 for h in s.handlers:
-                    T |= run(h.body, set(T))
+                    T = _merge(T, run(h.body, dict(T)))
                 T = run(s.orelse, T)
                 T = run(s.finalbody, T)
                 continue
@@ -778,33 +813,30 @@ def _analyse(fn, tainted_params, fns, writes, calls):
                 val = s.value
                 for t in tgts:
                     if isinstance(t, (ast.Subscript, ast.Attribute)):
-                        b = base_name(t)
-                        if b is not None and b in T and b != kwname:
+                        rn = root_name(t)
+                        if rn == "self" and is_method:
+                            if fn.qual.split(".<locals>.")[0] not in SELF_WRITERS:
+                                record(s, "self-assign", ast.unparse(t))
+                        elif rn is not None and rn != kwname and _level(base_expr(t), T, kwname) == 2:
                             record(s, "assign", ast.unparse(t))
-                        if b == "self" and fn.qual.split(".<locals>.")[0] not in SELF_WRITERS and is_method:
-                            record(s, "self-assign", ast.unparse(t))
                     for nm in _targets(t):
-                        if val is not None and _expr_tainted(val, T, kwname) and not isinstance(s, ast.AugAssign):
-                            T.add(nm)
-                        elif not isinstance(s, ast.AugAssign):
-                            T.discard(nm)
+                        if isinstance(s, ast.AugAssign):
+                            continue
+                        lv = _level(val, T, kwname) if val is not None else 0
+                        if lv:
+                            T[nm] = lv
+                        else:
+                            T.pop(nm, None)
             elif isinstance(s, ast.Delete):
                 for t in s.targets:
                     if isinstance(t, ast.Subscript):
-                        b = base_name(t)
-                        if b in T and b != kwname:
+                        rn = root_name(t)
+                        if rn is not None and rn != kwname and rn != "self" and _level(base_expr(t), T, kwname) == 2:
                             record(s, "del", ast.unparse(t))
         return T
 
-    T0 = set(tainted_params)
-    if fn.vararg and fn.vararg in tainted_params:
-        T0.add(fn.vararg)
+    T0 = {n: lv for n, lv in tainted_params}
     run(fn.node.body, T0)
-    # nested functions see the enclosing tainted names (closures) and their own tainted params
-    for key, sub in fns.items():
-        if sub.module == fn.module and sub.qual.startswith(fn.qual + ".<locals>.") \
-                and "." not in sub.qual[len(fn.qual) + len(".<locals>."):]:
-            pass
 
 
 def gen_sites():
@@ -815,9 +847,9 @@ def gen_sites():
         fn = fns.get((m, q))
         if fn is None:
             continue
-        tp = set(fn.params) - {"self"}
+        tp = {(x, 2) for x in fn.params}
         if fn.vararg:
-            tp.add(fn.vararg)
+            tp.add((fn.vararg, 1))
         work.append(((m, q), frozenset(tp)))
     recognised = True
     steps = 0
